@@ -225,8 +225,12 @@ type Op struct {
 	Share     bool     `json:"share,omitempty"`        // slices: the users that have a company share ONE *Company value
 	BatchSize int      `json:"batch_size,omitempty"`   // Session{CreateBatchSize}
 	Scopes    bool     `json:"scopes,omitempty"`       // the call goes through db.Scopes(...)
-	FwdID     bool     `json:"fwd_id,omitempty"`       // with NoRet: LastInsertId is the FIRST row's key (MySQL style) instead of the last (SQLite style)
-	Form      int      `json:"form,omitempty"`         // update_row / create_map(s): alternative form of the same call
+	// the operation is called on a handle derived by Session options that must not change whether
+	// the call is all-or-nothing: skiphooks (no hook runs) | ctx (WithContext) | newdb | queryfields |
+	// allowglobal | unscopedprop | logger | nowfunc | initialized
+	Sess  []string `json:"sess,omitempty"`
+	FwdID bool     `json:"fwd_id,omitempty"` // with NoRet: LastInsertId is the FIRST row's key (MySQL style) instead of the last (SQLite style)
+	Form  int      `json:"form,omitempty"`   // update_row / create_map(s): alternative form of the same call
 }
 
 type Input struct {
@@ -439,6 +443,28 @@ func strs(l []string) []interface{} {
 }
 
 func doOp(db *gorm.DB, op Op) error {
+	for _, o := range op.Sess {
+		switch o {
+		case "skiphooks":
+			db = db.Session(&gorm.Session{SkipHooks: true})
+		case "ctx":
+			db = db.WithContext(context.Background())
+		case "newdb":
+			db = db.Session(&gorm.Session{NewDB: true})
+		case "queryfields":
+			db = db.Session(&gorm.Session{QueryFields: true})
+		case "allowglobal":
+			db = db.Session(&gorm.Session{AllowGlobalUpdate: true})
+		case "unscopedprop":
+			db = db.Session(&gorm.Session{PropagateUnscoped: true})
+		case "logger":
+			db = db.Session(&gorm.Session{Logger: logger.Discard})
+		case "nowfunc":
+			db = db.Session(&gorm.Session{NowFunc: nowFunc})
+		case "initialized":
+			db = db.Session(&gorm.Session{Initialized: true})
+		}
+	}
 	if op.FullSave {
 		db = db.Session(&gorm.Session{FullSaveAssociations: true})
 	}
@@ -616,7 +642,15 @@ func runOnce(in Input, refDumps []string) (Observed, []string) {
 		}
 	}
 	cur = st
-	err := doOp(db, in.Op)
+	var err error
+	func() { // a panic raised by gorm is an observation (reported as an "other" error), never the end of the harness
+		defer func() {
+			if p := recover(); p != nil {
+				err = fmt.Errorf("PANIC in gorm: %v", p)
+			}
+		}()
+		err = doOp(db, in.Op)
+	}()
 	cur = nil
 	e.rec.Fault, e.rec.After = nil, nil
 	var o Observed
@@ -941,6 +975,12 @@ func (g *gen) input() Input {
 		op.FwdID = op.NoRet && r.Chance(1, 3)
 	}
 	op.Scopes = r.Chance(1, 8)
+	if r.Chance(1, 3) {
+		op.Sess = append(op.Sess, "skiphooks")
+	}
+	if r.Chance(1, 4) {
+		op.Sess = append(op.Sess, lib.Pick(r, []string{"ctx", "newdb", "queryfields", "allowglobal", "unscopedprop", "logger", "nowfunc", "initialized"}))
+	}
 	in.Op = op
 	for i := r.Pick3(); i > 0; i-- {
 		in.Pre = append(in.Pre, lib.Pick(r, []string{"tosql", "dryrun", "skipdef", "session", "ctx", "prep"}))
@@ -983,11 +1023,19 @@ func hasAssoc(u UserSpec) bool {
 }
 
 const sigSaveTwoTx = "save-preset-key-missing-row-with-associations"
+const sigByValueSkipHooks = "create-by-value-skiphooks-belongs-to-panics"
 
 // sig: known-finding signature, from the input only: Save of a record whose preset primary key
 // matches no row (UPDATE affects nothing, then a second INSERT pipeline) and that carries
 // associations, with a fault (the fault decides nothing about the signature's shape).
 func sig(in Input) string {
+	if in.Op.Kind == "create_value" && len(in.Op.Users) == 1 && (in.Op.Users[0].Company != nil || in.Op.Users[0].Home != nil) {
+		for _, o := range in.Op.Sess {
+			if o == "skiphooks" {
+				return sigByValueSkipHooks
+			}
+		}
+	}
 	nu, _, _, _, _, _ := seedCounts(in.Seed)
 	if in.Op.Kind == "save" && len(in.Op.Users) == 1 && in.Op.Users[0].ID > nu && hasAssoc(in.Op.Users[0]) &&
 		(in.DFault >= 0 || in.HFault >= 0) {
@@ -998,7 +1046,7 @@ func sig(in Input) string {
 
 func shape(in Input, free Observed) string {
 	var sb strings.Builder
-	fmt.Fprintf(&sb, "%v %s fs=%v sel=%v |", in.Pre, in.Op.Kind, in.Op.FullSave, in.Op.Select)
+	fmt.Fprintf(&sb, "%v %v %s fs=%v sel=%v |", in.Pre, in.Op.Sess, in.Op.Kind, in.Op.FullSave, in.Op.Select)
 	for _, e := range free.Evs {
 		switch e.K {
 		case "op":
@@ -1021,6 +1069,10 @@ func main() {
 	// one operation: the fault-free run, then one run per driver operation and per hook invocation
 	addOp := func(kind string, in Input, onlyD, onlyH int) {
 		in.DFault, in.HFault = -1, -1
+		if kind != "corpus" && kind != "replay" && sig(in) == sigByValueSkipHooks {
+			out.Count("excluded_known_finding", sigByValueSkipHooks)
+			return
+		}
 		free, dumps := runOnce(in, nil)
 		if free.ErrK != "nil" {
 			// the operation fails by itself (empty slice, constraint ...): no model prediction, but the
@@ -1092,6 +1144,7 @@ func main() {
 			out.Count("pipelines", fmt.Sprint(npipes))
 			out.Count("full_save", fmt.Sprint(in.Op.FullSave))
 			out.Count("history", fmt.Sprint(in.Pre))
+			out.Count("session_options", fmt.Sprint(in.Op.Sess))
 			if o.ErrK == "other" {
 				out.Count("other_error", o.ErrText)
 			}
@@ -1220,6 +1273,10 @@ func main() {
 			{Kind: "updates_map", Target: 1, Users: []UserSpec{plain}, Sel: []string{"Name"}},
 			{Kind: "delete", Users: []UserSpec{{ID: 1}}, Select: []string{"Pets", "Pets.Toys"}},
 			{Kind: "update_column", Target: 2, Users: []UserSpec{plain}}, {Kind: "delete_conds", Users: []UserSpec{{ID: 2}}},
+			{Kind: "create", Users: []UserSpec{full}, Sess: []string{"skiphooks"}}, {Kind: "create_slice", Users: []UserSpec{small, full}, Sess: []string{"skiphooks", "ctx"}},
+			{Kind: "save", Users: []UserSpec{withID(full, 1)}, Sess: []string{"skiphooks"}}, {Kind: "updates", Target: 1, Users: []UserSpec{full}, Sess: []string{"skiphooks", "newdb"}},
+			{Kind: "delete", Users: []UserSpec{{ID: 1}}, Select: []string{"*"}, Sess: []string{"skiphooks"}}, {Kind: "create", Users: []UserSpec{full}, Sess: []string{"initialized", "queryfields"}},
+			{Kind: "create_batches", Users: []UserSpec{small, small, small}, Batch: 2, Sess: []string{"skiphooks"}}, {Kind: "create", Users: []UserSpec{full}, Sess: []string{"logger", "nowfunc", "allowglobal", "unscopedprop"}},
 		}
 		for i, op := range menu {
 			if a.N > 0 && i >= a.N/25 {
@@ -1231,7 +1288,7 @@ func main() {
 			}
 			addOp("menu", in, -1, -1)
 		}
-		nops -= 50
+		nops -= 55
 		if nops < 20 {
 			nops = 20
 		}
